@@ -293,10 +293,13 @@ PROPS["C29"] = dict(
     bounds="every entry->return path of each closure's (acyclic) MIR control-flow graph, unwind edges excluded: frame closures push exactly one entry on their input "
            "stack (also on the inspector-short-circuit path and when the inner handler returns an error), outcome closures and last_frame_return pop exactly one",
     outside="that the call loop pairs each frame closure with exactly one outcome closure (Evm::run_the_loop), that the popped entry is the matching one (LIFO nesting "
-            "follows from the pairing), step/step_end bracketing, log and selfdestruct notifications",
+            "follows from the pairing), step/step_end bracketing (C28), the body of the log wrapper (only WHICH opcodes it is installed for is decided: all 256 opcodes against the "
+            "instruction table) and the selfdestruct notification (C30); `the same inputs` is decided as: the inputs queued for *_end are cloned after the call/create/eofcreate hook ran",
     assumptions=["push/pop sites are the Vec::<Box<CallInputs|CreateInputs|EOFCreateInputs>>::{push,pop} calls", "branch conditions abstracted to free choices",
                  "z3 4.8.12 and cvc5 1.0 agree; a sat path is replayed by a transaction with nested calls/creates under a counting inspector (native tool)"],
-    jobs=[dict(name="e3::inspector_stack_balance", fn=jobs_e3.run_inspector_balance)],
+    jobs=[dict(name="e3::inspector_stack_balance", fn=jobs_e3.run_inspector_balance),
+          # the opcodes wrapped with the log notification == the opcodes the instruction table maps to host::log (all 256); inputs are queued for *_end after the hook ran
+          dict(name="e3::log_wrapper_range_and_queued_inputs", fn=__import__("jobs_c29").run_logs_and_inputs)],
 )
 
 # --------------------------------------------------------------------------- C31
